@@ -433,6 +433,19 @@ def _sample_obligations(ctx: Ctx, env: BatchEnv, tag: str, fS) -> None:
             return True, ""
         _guard(ctx, "T13.sample", f"{tag}:{desc}", fS, f"sample {desc} {tag}", th)
 
+    def pad_scalar():
+        # a constant outside value is emulated by shifting the data: the shift must not reach the caller's image (a second sampling of the
+        # same batch would read shifted values although its grids still say where the original values are)
+        before = [to_rat(v) for v in env.batch.flat()]
+        first = it.method(env.batch, "sample", targets[0], padding=Fraction(5, 2))
+        if not all(to_rat(a).equals(b) for a, b in zip(env.batch.flat(), before)):
+            return False, "sample(grid, padding=5/2) changed the voxel values of the batch it was called on"
+        again = it.method(env.batch, "sample", targets[0], padding=Fraction(5, 2))
+        if not teq(again, first):
+            return False, "sampling the same batch a second time with the same arguments returns other values"
+        return True, ""
+    _guard(ctx, "T13.sample", f"{tag}:scalar padding twice", fS, f"sample with a scalar outside value, twice {tag}", pad_scalar)
+
     # sampling on the image's own grids returns the batch itself
     def same():
         r = it.method(env.batch, "sample", tuple(env.grids))
